@@ -1383,3 +1383,19 @@ Lemma requester_overwritten p q rest :
   rem_in p = MPullReq q :: rest ->
   requester (fst (processFromOutside p)) = pq_src q.
 Proof. intros E. unfold processFromOutside. rewrite E. reflexivity. Qed.
+
+(** the port names akita's Send accepts for the messages of the protocol *)
+Definition names_ok (ra la ma rb lb mb : N) : Prop :=
+  ra <> 0 /\ rb <> 0 /\ ra <> rb /\ (ma <> 0 /\ ma <> la) /\ (mb <> 0 /\ mb <> lb).
+
+Lemma copy_spec sb0 st r a :
+  (mg_wr r <= a < mg_wr r + mg_size r -> copy_req sb0 st r a = sb0 (mg_rd r + (a - mg_wr r))) /\
+  (a < mg_wr r \/ mg_wr r + mg_size r <= a -> copy_req sb0 st r a = st a).
+Proof.
+  unfold copy_req. split; intros H.
+  - destruct (mg_wr r <=? a) eqn:E1; [|apply N.leb_gt in E1; lia].
+    destruct (a <? mg_wr r + mg_size r) eqn:E2; [|apply N.ltb_ge in E2; lia]. reflexivity.
+  - destruct (mg_wr r <=? a) eqn:E1; cbn; auto.
+    destruct (a <? mg_wr r + mg_size r) eqn:E2; cbn; auto.
+    apply N.leb_le in E1. apply N.ltb_lt in E2. lia.
+Qed.
